@@ -94,7 +94,7 @@ theorem nodup_ddup {α} [DecidableEq α] : ∀ l : List α, (ddup l).Nodup
 /-! ### node lists of the composite updates -/
 
 theorem decOps_nodes (ts : TState) (t : Task) (k : WKey) :
-    (ts.decOps t k).nodes = t.ops.foldl (fun ns o => decExec ns t.scq (ts.invOf o) k ts.s.now) ts.nodes := rfl
+    (ts.decOps t k).nodes = t.ops.foldl (fun ns o => decExecR ts.legacyPrio ts.prioOf ns t.scq (ts.invOf o) k ts.s.now) ts.nodes := rfl
 theorem deqOps_nodes (ts : TState) (t : Task) :
     (ts.deqOps t).nodes = t.ops.foldl (fun ns o => removeQueuedOp ts.prioOf ns t.scq (ts.invOf o) o) ts.nodes := rfl
 
@@ -105,12 +105,12 @@ theorem detachQueued_nodes_ok {E : List EC} {I : List IC} {Q : List QC} {P : Lis
     TreeOK [] (((ts.incOps t none).deqOps t).decOps t none).nodes E I
       (Q.filter (fun c => !(t.ops.map (fun o => (t.scq, ts.invOf o, o))).contains c)) P := by
   have hn : ∀ o ∈ t.ops, (node? ts.nodes t.scq (ts.invOf o)).isSome = true := fun o ho => hT.rfQ _ (hq o ho)
-  have h1 := incOps_ok hT t.scq ts.invOf none ts.s.now t.ops hn
+  have h1 := incOps_ok hT ts.legacyPrio ts.prioOf t.scq ts.invOf none ts.s.now t.ops hn
   rw [List.filter_nil] at h1
   have h2 := deqOps_ok h1 ts.prioOf t.scq ts.invOf t.ops hQ hnd hq
   -- the invocations on the operations' paths are kept alive by the temporary worker's entries
   have h3 : TreeOK [] (t.ops.foldl (fun ns o => removeQueuedOp ts.prioOf ns t.scq (ts.invOf o) o)
-      (t.ops.foldl (fun ns o => incExec ns t.scq (ts.invOf o) none ts.s.now) ts.nodes))
+      (t.ops.foldl (fun ns o => incExecR ts.legacyPrio ts.prioOf ns t.scq (ts.invOf o) none ts.s.now) ts.nodes))
       (t.ops.map (fun o => (t.scq, ts.invOf o, none)) ++ E) I
       (Q.filter (fun c => !(t.ops.map (fun o => (t.scq, ts.invOf o, o))).contains c)) P := by
     apply h2.reexempt
@@ -121,7 +121,7 @@ theorem detachQueued_nodes_ok {E : List EC} {I : List IC} {Q : List QC} {P : Lis
     apply (h2.not_empty_iff hn').mpr
     left
     exact ⟨(t.scq, ts.invOf o, none), List.mem_append_left _ (List.mem_map.mpr ⟨o, ho, rfl⟩), he.1, by rw [← he.2]; exact hpre⟩
-  exact decOps_ok t.scq ts.invOf none ts.s.now t.ops h3
+  exact decOps_ok ts.legacyPrio ts.prioOf t.scq ts.invOf none ts.s.now t.ops h3
 
 /-- membership in a bag that is a `flatMap` over the task table, after one entry is replaced -/
 theorem mem_flatMap_aset {β} (f : Task → List β) (tasks : List (Nat × Task)) (hnd : (keys tasks).Nodup)
@@ -293,7 +293,7 @@ theorem detachExec_ts {ex exo} {ts : TState} {t t' : Task} {q0 : ScqId} {w : WId
     rw [conE_worker _ t q0 w hw] at this
     exact this
   have h2 := h1.congr hEsplit (List.Perm.refl _) (fun c => Iff.rfl) (fun c => Iff.rfl)
-  have h3 := decOps_ok t.scq ts.invOf (some w) ts.s.now t.ops h2
+  have h3 := decOps_ok ts.legacyPrio ts.prioOf t.scq ts.invOf (some w) ts.s.now t.ops h2
   let ts' : TState := ((ts.setLast t.scq q0 w p).decOps t (some w)).setS s'
   -- the bags of the new state
   have hE : E0.Perm (bagE ts') := by
